@@ -438,6 +438,12 @@ fn build_enum(mapping: &serde_yaml::Mapping, path: &[&str]) -> Result<Node, Erro
         }
     }
 
+    if !values.iter().all_unique() {
+        return Err(Error::DuplicateEnumValue {
+            path_hint: format_path(path),
+        });
+    }
+
     if !values.contains(&init_value) {
         return Err(Error::InitNotAKnownValue {
             path_hint: format_path(path),
